@@ -207,4 +207,11 @@ def suite_reentrant(ctx):
     return reentrant.suite_reentrant(ctx)
 
 
-SUITES = [suite_call, suite_reentrant, suite_blocks]
+def suite_two_clients(ctx):
+    """a second client object in the same process (inside a suppress block, a payload override, with adopted timing, reconfigured, after a failed call) never shows
+    in this client's frames, waits or outcome: the C15 two_clients suite, run here as well"""
+    from . import c15
+    return c15.suite_two_clients(ctx)
+
+
+SUITES = [suite_call, suite_reentrant, suite_blocks, suite_two_clients]
